@@ -94,6 +94,8 @@ pub struct Ctx {
     pub active: bool,
     pub width: u8,
     pub job_deadline: Option<std::time::Instant>,
+    /// the context under test has no output sink: `into_u8` values are not parked
+    pub no_output: bool,
 }
 
 thread_local! {
@@ -167,6 +169,7 @@ pub fn init(kind: Kind, timeout_ms: u64, limits: Limits, hash_mode: HashMode, io
                     active: false,
                     width: 8,
                     job_deadline: None,
+                    no_output: false,
                 });
             }
         }
